@@ -225,6 +225,68 @@ def data_uses(terms, data):
     return uses
 
 
+def unread_header_octets(f):
+    """Octets 0..6 of the buffer that no successful non-protocol-header
+    return of frame.unmarshal looks at (neither its result nor its path
+    conditions contain a view covering them).  Empty when every octet is
+    covered or when the buffer is used in a way that cannot be bounded."""
+    unread = None
+    for r in f.rets:
+        if f.kind_of(r) in (None, 'protocol', 'other'):
+            continue
+        def magic_test(a):
+            # data[i:j] ==/!= b'...' : tells the protocol header apart, it
+            # does not take a field value out of those octets
+            while isinstance(a, Sym) and a.op == 'not':
+                a = a.args[0]
+            return isinstance(a, Sym) and a.op in ('eq', 'ne') and \
+                isinstance(a.args[0], Sym) and a.args[0].op == 'slice' and \
+                isinstance(a.args[1], bytes)
+        terms = r.reachable_terms(f.it) + [
+            a for a in r.kn.atoms if isinstance(a, Sym) and
+            not magic_test(a)]
+        covered = set()
+        for ukind, lo, hi, _t in data_uses(terms, f.data):
+            if ukind == 'len':
+                continue
+            if ukind == 'index' and isinstance(lo, int):
+                covered.add(lo)
+            elif ukind == 'slice' and isinstance(lo, int) and lo >= 0:
+                top = hi if isinstance(hi, int) and hi >= 0 else 7
+                covered.update(range(lo, min(top, 7)))
+            elif ukind in ('index', 'slice') and lo is not None and \
+                    not isinstance(lo, int) and \
+                    (r.kn.lin_interval(lo)[0] or 0) >= 7:
+                continue  # a position behind the header
+            else:
+                return set()  # whole buffer / unbounded position
+        miss = set(range(7)) - covered
+        unread = miss if unread is None else (unread & miss)
+    return unread or set()
+
+
+def header_or_violation(chk, rule, f, what='frame.unmarshal'):
+    """True when the three envelope header reads were found.  Otherwise:
+    a header octet that no successful decode looks at is reported as a
+    violation (what it carries cannot come back); if every octet is looked
+    at but not in a recognised form, the analysis stops undecided."""
+    if f.header is not None:
+        return True
+    miss = unread_header_octets(f)
+    if miss:
+        names = {0: 'type', 1: 'channel', 2: 'channel', 3: 'size',
+                 4: 'size', 5: 'size', 6: 'size'}
+        chk.ob(rule, 'envelope header octets read', False,
+               'octet(s) %s of the 7-octet frame header (%s) are never '
+               'looked at on a successful decode: what the sender wrote '
+               'there cannot come back' % (
+                   sorted(miss), ', '.join(sorted({names[i] for i in miss}))),
+               site='pamqp/frame.py::unmarshal')
+        return False
+    raise AnalysisError('no envelope header read (u8 type @0, u16 channel '
+                        '@1, u32 size @3) found in %s' % what)
+
+
 def end_octet_guarded(kn, data, last, fe, fe_char):
     """Do the path facts include data[last] == FRAME_END, in either of the
     two spellings (index compare or one-byte slice compare)?"""
